@@ -197,6 +197,33 @@ func packenvExec(c *Ctx, op string) {
 			}
 		}
 	}
+	// what lies below the archive's time resolution is not fileset content: two materialisations whose mtimes agree to
+	// the second (before and after 1970, on files, directories and the root) pack to one id
+	{
+		mk := func(ns [4]int) Fileset {
+			e := func(n string, k byte, sec int64, nsec int) Entry {
+				x := Entry{Name: n, Kind: k, Perms: 0644, Uid: 3, Gid: 4, Sec: sec, Nsec: nsec}
+				if k == 'd' {
+					x.Perms = 0755
+				} else {
+					x.Content = []byte(n)
+				}
+				return x
+			}
+			return Fileset{e("", 'd', -6, ns[0]), e("old", 'f', -86400*365, ns[1]), e("d", 'd', -1, ns[2]), e("d/new", 'f', 1500000000, ns[3]), e("edge", 'f', 0, ns[1])}
+		}
+		a, b := filepath.Join(base, "subsec-a"), filepath.Join(base, "subsec-b")
+		if Materialize(mk([4]int{700000000, 1, 999999999, 5}), a, nil) == nil && Materialize(mk([4]int{0, 0, 0, 0}), b, nil) == nil {
+			// (the backing filesystem must hold negative and nanosecond mtimes for this to say anything)
+			if fi, e := os.Lstat(filepath.Join(a, "old")); e == nil && fi.ModTime().Nanosecond() == 1 && fi.ModTime().Unix() == -86400*365 {
+				ga, gb := packOne(a, ""), packOne(b, "")
+				c.H("variant:subsecond-mtimes")
+				if ga != gb {
+					c.PropFail("pack-env", fmt.Sprintf("two materialisations of one fileset whose mtimes differ only below one second pack to %s and %s", ga, gb), op)
+				}
+			}
+		}
+	}
 	// the CLI in a subprocess with another time zone, locale and working directory — tar and zip; set 0 carries
 	// mtimes inside the repeated / skipped wall-clock hours of these zones (see dstInstants)
 	if bin := os.Getenv("RIO_BIN"); bin != "" && len(dirs[0]) > 0 {
